@@ -153,7 +153,43 @@ def h_write_read(e, config, n1, n2):
     e.claim_eq("read-after-write", val(got), want)
 
 
-HARNESSES = {"access": h_access, "write_read": h_write_read}
+def h_read_write_read(e, config, n1, n2):
+    """read through any spelling of an address (also negative / >= 2^32), write overlapping cells
+    through another spelling, read again through the first spelling: the second read composes the
+    most recently written bytes (no result of the first read may survive the write)."""
+    from architecture_simulator.uarch.memory.memory import MemoryAddressError
+    from symx.state import fx
+
+    f = fx()
+    m, st, cellbits, lo, hi, wrap = mk_memory(e, config)
+    pre = st.fork()
+    a = e.int("a", -(2**33), 2**33) if wrap else e.int("a", 0, hi - 1)
+    k = e.int("k", -2, 2) if wrap else 0  # the write uses the address shifted by k * 2^32
+    d = e.int("d", -4, 4)
+    b = a + d + k * 2**32
+    v = e.int("v", 0, 2 ** (8 * n1) - 1)
+    try:
+        first = getattr(m, "read_" + NAMES[n2])(a)
+        getattr(m, "write_" + NAMES[n1])(b, getattr(f, "UInt%d" % (8 * n1))(v))
+        got = getattr(m, "read_" + NAMES[n2])(a)
+    except MemoryAddressError:
+        return
+    c1 = (8 * n1) // cellbits
+    c2 = (8 * n2) // cellbits
+    ref = pre.fork()
+    for i in range(c1):
+        ref.set(zx(b + i, 32) if wrap else b + i, zx(v >> (cellbits * i), cellbits))
+    want = 0
+    for i in range(c2):
+        t = zx(a + i, 32) if wrap else a + i
+        want = want | (ref.abstract(t) << (cellbits * i))
+    e.observe("first", first)
+    e.observe("got", got)
+    e.claim_eq("read-after-write-after-read", val(got), want)
+    e.claim("canary:rwr", cond("==", val(got), zx(want + 1, 8 * n2)))
+
+
+HARNESSES = {"access": h_access, "write_read": h_write_read, "read_write_read": h_read_write_read}
 
 
 def jobs(tier, seed):
@@ -168,6 +204,10 @@ def jobs(tier, seed):
         out.append({"label": "riscv-wr-%d-%d" % (n1, n2), "harness": "write_read", "args": {"config": "riscv", "n1": n1, "n2": n2}, "cost": 4})
     for n1, n2 in ((4, 4), (2, 4), (4, 1)):
         out.append({"label": "anyrange-wr-%d-%d" % (n1, n2), "harness": "write_read", "args": {"config": "anyrange", "n1": n1, "n2": n2}, "cost": 4})
+    for n1, n2 in ((4, 4), (1, 4), (4, 2), (2, 1)):
+        out.append({"label": "riscv-rwr-%d-%d" % (n1, n2), "harness": "read_write_read", "args": {"config": "riscv", "n1": n1, "n2": n2}, "cost": 5})
+    out.append({"label": "anyrange-rwr-4-4", "harness": "read_write_read", "args": {"config": "anyrange", "n1": 4, "n2": 4}, "cost": 5})
+    out.append({"label": "toy-rwr-2-2", "harness": "read_write_read", "args": {"config": "toy", "n1": 2, "n2": 2}, "cost": 2})
     out.append({"label": "toy-wr-2-2", "harness": "write_read", "args": {"config": "toy", "n1": 2, "n2": 2}, "cost": 2})
     out.append({"label": "toy-wr-2-4", "harness": "write_read", "args": {"config": "toy", "n1": 2, "n2": 4}, "cost": 2})
     return out
